@@ -25,10 +25,10 @@ fn grammars(tier: Tier) -> Vec<Grammar> {
 		max_len: if tier == Tier::Quick { 5 } else { 6 },
 		max_w: 3,
 		max_p: 3,
-		max_r: 1,
+		max_r: 0,
 		writes: vec![(Kind::Set, b"a"), (Kind::Set, b"b"), (Kind::Delete, b"a")],
 		phys: vec![Phys::FlushAll, Phys::Compact, Phys::Reopen],
-		max_readers: 1,
+		max_readers: 0,
 		cursors: false,
 		pending: false,
 		ro_readers: false,
@@ -55,8 +55,8 @@ const HIST_BACKENDS: [&str; 2] = ["lsm-vlog64", "index-vlog64"];
 
 fn hist_opt(name: &str) -> OptSet {
 	match name {
-		"lsm-vlog64" => OptSet::base("versioned-lsm-vlog64").versioned(0, false).with_vlog(0, 64),
-		_ => OptSet::base("versioned-index-vlog64").versioned(0, true).with_vlog(0, 64),
+		"lsm-vlog64" => OptSet::base("versioned-lsm-vlog64-cache0").versioned(0, false).with_vlog(0, 64).cache(0),
+		_ => OptSet::base("versioned-index-vlog64-cache0").versioned(0, true).with_vlog(0, 64).cache(0),
 	}
 }
 
@@ -105,9 +105,10 @@ pub fn check(tier: Tier) -> i32 {
 	surrealkv::verif::set_forced_height(1);
 	let mut report = Report::new("C11", tier, "model_checking");
 	let budget = Budget::new(if tier == Tier::Quick { 50.0 } else { 1000.0 });
-	let mut opts = vec![OptSet::base("L2-vlog8-64").with_vlog(8, 64), OptSet::base("L2-versioned-vlog64").versioned(0, false).with_vlog(0, 64)];
+	// no block cache: a cached value would hide a pointer whose file is gone
+	let mut opts = vec![OptSet::base("L2-vlog8-64-cache0").with_vlog(8, 64).cache(0), OptSet::base("L2-versioned-vlog64-cache0").versioned(0, false).with_vlog(0, 64).cache(0)];
 	if tier == Tier::Thorough {
-		opts.push(OptSet::base("L3-vlog8-64-cache0").levels(3).with_vlog(8, 64).cache(0));
+		opts.push(OptSet::base("L3-vlog8-64").levels(3).with_vlog(8, 64));
 		opts.push(OptSet::base("L2-versioned-index-vlog64").versioned(0, true).with_vlog(0, 64));
 	}
 	let mut stats = SpaceStats::default();
@@ -201,18 +202,25 @@ pub fn check(tier: Tier) -> i32 {
 	}
 	let crash_evals = report.coverage.get("evaluations").and_then(|v| v.as_u64()).unwrap_or(0);
 	report.set("crash_image_evaluations", json!(crash_evals));
+	// --- schedule part: a flush (with its obsolete-file clean-up) while a compaction is in flight ---
+	let code = crate::props::sched::run_into(&mut report, "C11", tier, if tier == Tier::Quick { 8.0 } else { 200.0 });
+	if code != 0 {
+		return code;
+	}
+	let sched_evals = report.coverage.get("evaluations").and_then(|v| v.as_u64()).unwrap_or(0) - crash_evals;
+	report.set("schedule_evaluations", json!(sched_evals));
 	report.set("history_evaluations", json!(hist_evals));
-	report.set("evaluations", json!(stats.evaluations + hist_evals + crash_evals));
+	report.set("evaluations", json!(stats.evaluations + hist_evals + crash_evals + sched_evals));
 	report.set("states", json!(stats.states.len().max(1)));
 	report.set("transitions", json!(stats.transitions.max(1)));
 	report.set("traces_validated_against_impl", json!(stats.evaluations));
 	report.set("distinct_nontrivial", json!(stats.nontrivial.len()));
-	report.set("rule", json!("three parts, see bounds_completed / crash_rule. world sequences of two grammars: (1) commits of {set a, set b, delete a} x value sizes {0,7,8,9,200} with flush/compaction/reopen and one reader, (2) commits of {set a, delete a} x sizes {9,200} with flush/compaction and up to two readers with open cursors held across them; a sequence must contain a Begin followed by activity; non-trivial = some physical op changed the level shape; distinct by op list"));
+	report.set("rule", json!("three parts, see bounds_completed / crash_rule. world sequences of two grammars: (1) commits of {set a, set b, delete a} x value sizes {0,7,8,9,200} with flush/compaction/reopen, no reader (every list ending in a physical operation), (2) commits of {set a, delete a} x sizes {9,200} with flush/compaction and up to two readers with open cursors held across them; a sequence must contain a Begin followed by activity; non-trivial = some physical op changed the level shape; distinct by op list"));
 	report.set("samples", json!(samples));
 	report.set("bounds_completed", json!(completed));
 	let crash_ex = report.coverage.get("exhaustive").and_then(|v| v.as_bool()).unwrap_or(true);
 	report.set("exhaustive", json!(all_complete && crash_ex));
 	report.set("failures_per_class", json!(stats.per_class));
-	report.assume("value-log file size 64 bytes: every flush of a value >= 9 bytes rotates the log; threshold 8 (or 0 with versioning)");
+	report.assume("the block cache is disabled in the quick option sets (a cached value would mask a pointer whose file was removed); value-log file size 64 bytes: every flush of a value >= 9 bytes rotates the log; threshold 8 (or 0 with versioning)");
 	report.finish()
 }
